@@ -27,6 +27,7 @@ type c19Upload struct {
 	ch, track, name string // name: "init" or segment index
 	body            []byte
 	ext             string
+	noAuth          bool // sent without credentials (a protected channel answers 401 and stores nothing)
 }
 
 type c19Scenario struct {
@@ -121,6 +122,9 @@ func TestVerifC19(t *testing.T) {
 		{name: "two-existing-channels", prior: []c19Upload{up("ch1", v, "init"), up("ch2", v, "init"), up("ch3", a, "init")},
 			threads: [][]c19Upload{{up("ch1", v, "0")}, {up("ch2", v, "0")}, {up("ch3", a, "0")}}},
 		{name: "same-track-two-segments", prior: []c19Upload{up("ch1", v, "init"), up("ch1", v, "0")}, threads: [][]c19Upload{{up("ch1", v, "1")}, {up("ch1", v, "2")}}},
+		// a protected channel that is new to the receiver: an upload without credentials overlaps the first authorized ones
+		{name: "auth-with-intruder", cfg: &Config{Channels: []ChannelConfig{{Name: "ch1", AuthUser: "u", AuthPswd: "p"}}}, user: "u", pswd: "p",
+			threads: [][]c19Upload{{func() c19Upload { x := up("ch1", v, "init"); x.noAuth = true; return x }()}, {up("ch1", v, "init"), up("ch1", v, "0")}, {up("ch1", a, "init")}}},
 		{name: "same-track-partial-bodies", stall: true, prior: []c19Upload{up("ch1", v, "init"), up("ch1", v, "0")}, threads: [][]c19Upload{{up("ch1", v, "1")}, {up("ch1", v, "2")}}},
 		{name: "restarted-same-track", restart: true, prior: []c19Upload{up("ch1", v, "init"), up("ch1", a, "init"), up("ch1", v, "0")}, threads: [][]c19Upload{{up("ch1", v, "1")}, {up("ch1", v, "2")}}},
 		{name: "restarted-init+media", restart: true, prior: []c19Upload{up("ch1", v, "init"), up("ch1", v, "0")}, threads: [][]c19Upload{{up("ch1", v, "init")}, {up("ch1", v, "1")}}},
@@ -250,10 +254,20 @@ func TestVerifC19(t *testing.T) {
 				}
 				do := func(u c19Upload) {
 					var r rResp
+					user, pswd := sc.user, sc.pswd
+					if u.noAuth {
+						user, pswd = "", ""
+					}
 					if sc.stall && u.name != "init" {
-						r = rPutStalled(h, c19Path(u), u.body, sc.user, sc.pswd)
+						r = rPutStalled(h, c19Path(u), u.body, user, pswd)
 					} else {
-						r = rPut(h, c19Path(u), u.body, true, sc.user, sc.pswd)
+						r = rPut(h, c19Path(u), u.body, true, user, pswd)
+					}
+					if u.noAuth {
+						if r.Code != 401 {
+							s.Fail(fmt.Sprintf("C19.lost:unauthorized-status-%d", r.Code), fmt.Sprintf("%s without credentials answered %d", c19Path(u), r.Code))
+						}
+						return
 					}
 					if r.crashed() {
 						site, val := rPanicSite(rc, c19Path(u), u.body)
